@@ -105,6 +105,7 @@ func execAssume(env Env, t *world.TaskSpec, out *Outcome) {
 	s := solver.New(pb)
 	sum := ""
 	var trace []string
+	baseModels := base.Models() // enumerated once; each round filters them by its assumptions
 	for i, op := range t.Ops {
 		if op.Kind != "assume" {
 			continue
@@ -119,7 +120,20 @@ func execAssume(env Env, t *world.TaskSpec, out *Outcome) {
 		for _, l := range op.Lits {
 			round.Cons = append(round.Cons, ref.Clause(l))
 		}
-		truth, _ := round.Satisfiable()
+		truth := false
+		for _, m := range baseModels {
+			ok := true
+			for _, l := range op.Lits {
+				if !ref.LitTrue(l, m) {
+					ok = false
+					break
+				}
+			}
+			if ok {
+				truth = true
+				break
+			}
+		}
 		trace = append(trace, fmt.Sprintf("assume%v=%s", op.Lits, statusStr(st)))
 		sum += statusStr(st)[:1]
 		hist := fmt.Sprintf("base n=%d clauses=%v rounds=%v", t.N, t.Clauses, trace)
